@@ -95,7 +95,7 @@ func init() {
 		ID:     "C03",
 		Level:  "translation_validation",
 		Custom: runC03,
-		Bounds: "12 race-free templates (spawn+join, captured variable, mutex counter, last writer wins, condvar hand-off, broadcast to two waiters, two Adds, goroutine with trailing statements, go as last statement of a block, lock protecting two cells, WaitTimeout with a signaller, Sleep), ≤ 3 threads, a symbolic uint64 argument each; all interleavings at synchronisation points on both sides (≤ 20 000 / 200 000 per side)",
+		Bounds: "18 race-free templates (struct holding a mutex, spawning inside a loop, spawn+join, captured variable, mutex counter, last writer wins, condvar hand-off, broadcast to two waiters, two Adds, goroutine with trailing statements, go as last statement of a block, lock protecting two cells, WaitTimeout with a signaller, Sleep) plus 10 concurrent look-alikes (go with parameters, named function with a mutable argument, defer, mutex by value, RWMutex, TryLock, channels, go method call, Once) for which rejection is the other allowed outcome, ≤ 3 threads, a symbolic uint64 argument each; all interleavings at synchronisation points on both sides (≤ 20 000 / 200 000 per side)",
 		Assumptions: []string{
 			"interleavings are ENUMERATED by the executor at synchronisation points (sound for data-race-free programs); the solver decides the outcome-set inclusion / determinism queries over the symbolic argument",
 			"lock.*, waitgroup.*, Fork get the meaning of the Go primitives they model (FIFO wake-up for Signal); real-time behaviour of Sleep/WaitTimeout is not modelled (a timed wait may return at any moment)",
